@@ -437,7 +437,10 @@ impl WorkerTree {
             .graph
             .node_indices()
             .map(|index| {
-                let item = self.graph.node_weight(index).expect("node index should exist");
+                let item = self
+                    .graph
+                    .node_weight(index)
+                    .expect("node index should exist");
                 let status = match &item.status {
                     WorkStatus::NotStarted => "not-started".to_owned(),
                     WorkStatus::InProgress(_) => "in-progress".to_owned(),
